@@ -189,8 +189,10 @@ def run_one(d):
         return None  # a MainStreamsInfo without folders is not written by anybody
     raw = encode(d)
     want = describe(d)
+    # in a header the section is followed by FilesInfo, which names every substream (>= 2 bytes each): stand-in filler
+    rest = b"\x00" * (2 * sum(len(f["streams"]) for f in d["folders"]) + 2)
     try:
-        si = StreamsInfo.retrieve(io.BytesIO(raw))
+        si = StreamsInfo.retrieve(io.BytesIO(raw + rest))
         got = view(si)
     except Exception as e:  # noqa
         return ("C06", "reading the section raised %s: %s" % (type(e).__name__, str(e)[:120]))
@@ -203,7 +205,7 @@ def run_one(d):
         again = out.getvalue()
         if again[:1] != b"\x04":
             return ("C08", "rewritten section does not start with the MainStreamsInfo id")
-        si2 = StreamsInfo.retrieve(io.BytesIO(again[1:]))
+        si2 = StreamsInfo.retrieve(io.BytesIO(again[1:] + rest))
         got2 = view(si2)
     except Exception as e:  # noqa
         return ("C08", "re-serialising what was read and reading it back raised %s: %s" % (type(e).__name__, str(e)[:120]))
